@@ -6,6 +6,7 @@ package g12lib
 
 import (
 	"fmt"
+	"regexp"
 	"strings"
 )
 
@@ -137,4 +138,15 @@ func DeepPanicSite(stack string) string {
 		}
 	}
 	return "outside-repo"
+}
+
+var reIfaceConv = regexp.MustCompile(`interface \{\} is [^,]+, not `)
+var reIfaceConv2 = regexp.MustCompile(`interface conversion: [^ ]+ is [^,]+, not `)
+
+// PanicSig is panic:<frame that raised the panic>:<message with numbers, quoted text and the dynamic
+// type of a failed type assertion stripped>. strip is core.StripVolatile.
+func PanicSig(stack, value string, strip func(string) string) string {
+	msg := reIfaceConv.ReplaceAllString(value, "interface {} is _, not ")
+	msg = reIfaceConv2.ReplaceAllString(msg, "interface conversion: _ is _, not ")
+	return "panic:" + DeepPanicSite(stack) + ":" + strip(msg)
 }
